@@ -503,7 +503,7 @@ PROPS["C14"] = dict(
         "c14_stall_no_deadlock": "Stall model (writers: lock / write+unlock+rotation request / stall check; workers: rotation requests and flushes through a bounded channel and the journal "
                                  "lock), any capacity, any threshold >= 1, any writers and programs, >= 1 worker, every schedule: in every reachable state with an unfinished writer some "
                                  "thread's next step is effective and lowers rank",
-        "c14_stall_bounded_work": "every schedule has at most 11 x (number of writes) effective steps; with no_deadlock: any fair scheduler lets every writer finish",
+        "c14_stall_bounded_work": "every schedule has at most (11 + 2 x fanout) x (number of writes) effective steps; with no_deadlock: any fair scheduler lets every writer finish",
         "c14_worker_blocking_send_deadlocks": "with the pre-F24 blocking send a reachable state exists where the writer waits for a flush and the only worker for room in its own channel: nothing enabled",
         "c14_stall_inside_lock_deadlocks": "with the stall check inside the journal critical section (seeded C14-2) a reachable state exists where nothing is enabled",
         "c14_linearizable": "forall programs and schedules: replaying the linearization points (a write at its memtable apply inside the journal critical section, a latest read at its read) in "
@@ -512,16 +512,23 @@ PROPS["C14"] = dict(
         "c14_orders_agree": "seqno order = journal order (strict) = memtable apply order (non-decreasing)",
         "c14_final_content": "whenever no write is in flight the memtables hold exactly the items of all journaled (= acknowledged) writes, each entirely, in seqno order",
     },
-    engines=[dict(bin="conc", cases_quick=480, cases_thorough=12000, profiles=["release"], profiles_thorough=["release", "dev"])],
-    rule="as C06; additionally every Keyspace::get result is compared with the model at its linearization point, block probes check that insert / remove / batch commit / rotate_memtable "
+    engines=[dict(bin="conc", cases_quick=480, cases_thorough=12000, profiles=["release"], profiles_thorough=["release", "dev"]),
+             dict(bin="stall", args=[], cases_quick=160, cases_thorough=4000, profiles=["release"], profiles_thorough=["release", "dev"])],
+    rule="stall: case = 1-3 writer threads (2-8 writes of 40-1500 bytes against a 2000-byte memtable limit) and 1, 2 or 4 worker threads running the crate's own "
+         "worker_tick, stepped one at a time through write.locked / write.unlocked / write.stall and the worker.* pause points under a random schedule with "
+         "lock block probes; one case in three holds flushes back until a writer is halted by 4 sealed memtables; after every step the Lean Stall model must "
+         "agree on effective-or-waiting, the phase reached, and the counters (sealed memtables, queued flush tasks, queued worker messages); oracle: no "
+         "deadlock (some thread can always be moved) and all writers finish within the step budget. non-trivial = >= 2 rotations and a flush. "
+         "conc: as C06; additionally every Keyspace::get result is compared with the model at its linearization point, block probes check that insert / remove / batch commit / rotate_memtable "
          "cannot enter the journal critical section while another thread is inside, and the final content of every key is compared with 'acknowledged writes in seqno order'",
     trusted_base=CONC_TB,
-    assumptions=["the write-stall clause is proved on the Stall model, whose tie to the code is scenario-level (stall probe: 4 sealed memtables, a halted writer and the flush worker "
-                 "must both finish; worker-channel probe: full channel, the only worker must drain it and flush) rather than step-by-step; L0-run throttling (sleep loops on l0_run_count) "
-                 "and compaction progress inside lsm-tree are not modelled; fairness of the OS scheduler is assumed"],
+    assumptions=["the write-stall clause is proved on the Stall model (one keyspace; rotation requests with memtable generations, flush = all sealed memtables, compaction messages, "
+                 "bounded channel, journal lock), tied step by step by the stall engine and at scenario level by the stall probe and the worker-channel probe (a full channel is only "
+                 "reached there); L0-run throttling (sleep loops on l0_run_count), worker 0 handing compactions on, several keyspaces and compaction progress inside lsm-tree are not "
+                 "modelled; fairness of the OS scheduler is assumed"],
     level_text="Lean 4 theorems over all programs and schedules (linearization by forward simulation with explicit linearization points, bracket discipline of the history, order agreement); "
                "tied to the real crate by schedule-controlled runs of real threads",
-    level_note="journal rotation and flush content are covered sequentially (C01/C04/C10); liveness = deadlock freedom + bounded work on the Stall model, tied by probes only",
+    level_note="journal rotation and flush content are covered sequentially (C01/C04/C10); liveness = deadlock freedom + bounded work on the Stall model, tied by the stall engine",
     technique="Lean 4 proof (forward simulation to a sequential map, history invariants) + schedule-controlled differential correspondence",
     design_ref="6 C14",
 )
